@@ -11,7 +11,7 @@ BEHAVIOURS = ["always", "never", "stop2", "late-within", "late-beyond", "wrong-t
               "fragment-silent", "split-answers", "fragment-silent", "surplus-then-silent", "double-then-silent",
               "surplus-then-silent", "busy-at-deadline", "busy-at-deadline", "blank-before-answers",
               "busy-late-pong", "busy-late-pong", "busy-late-pong",
-              "stalled-late-pong", "stalled-late-pong", "stalled-late-pong"]
+              "stalled-late-pong", "stalled-late-pong", "stalled-late-pong", "multi-param-answers", "multi-param-answers"]
 
 
 class Lag(threading.Thread):
@@ -96,7 +96,7 @@ class Peer:
             b = self.b
             answer = None
             if b in ("always", "unsolicited", "slow-register", "cap-renegotiate", "cap-open-answering", "split-answers",
-                     "blank-before-answers"):
+                     "blank-before-answers", "multi-param-answers"):
                 answer = (now, tok)
             elif b == "wrong-token":
                 answer = (now, "not-the-token")
@@ -231,6 +231,13 @@ class Peer:
                 self.c.send_raw(line[:cut])
                 self.pending_tails.append((now + min(0.25, self.Q * 0.3), line[cut:]))
                 continue
+            if self.b == "multi-param-answers":
+                # the older forms of the answer: PONG <server> [<server2>|:<token>] - still a PONG, still an answer
+                form = ["PONG irc.verif.test :%s", "PONG %s irc.verif.test", "PONG %s :two words", "PONG a b c :%s",
+                        "PONG %s"][(self.answered + self.idx) % 5]
+                self.c.send(form % a[1] if "%s" in form else form)
+                self.answered += 1
+                continue
             self.c.send("PONG :" + a[1])
             self.answered += 1
         if now >= self.next_own_ping and self.b not in ("never", "fragment-silent", "split-answers", "surplus-then-silent",
@@ -320,7 +327,8 @@ def run_config(args):
                 out["peers"].append(rec)
                 tag = "P%d-Q%d" % (P, Q)
                 responsive = p.b in ("always", "late-within", "late-long", "wrong-token", "unsolicited", "slow-register",
-                                     "cap-renegotiate", "cap-open-answering", "split-answers", "blank-before-answers")
+                                     "cap-renegotiate", "cap-open-answering", "split-answers", "blank-before-answers",
+                                     "multi-param-answers")
                 if not p.registered:
                     # the statement is about registered clients only: nothing to judge
                     out["inconclusive"] = "slow registrant %s never got its welcome (closed: %s, %s)" % (
